@@ -281,8 +281,8 @@ func ext۰reflect۰Value۰Len(fr *frame, args []value) value {
 		return len(v)
 	case array:
 		return len(v)
-	case chan value:
-		return cap(v)
+	case *chanObj:
+		return v.cap
 	case []value:
 		return len(v)
 	case *hashmap:
@@ -351,8 +351,8 @@ func ext۰reflect۰Value۰Pointer(fr *frame, args []value) value {
 	switch v := rV2V(args[0]).(type) {
 	case *value:
 		return uintptr(unsafe.Pointer(v))
-	case chan value:
-		return reflect.ValueOf(v).Pointer()
+	case *chanObj:
+		return uintptr(unsafe.Pointer(v))
 	case []value:
 		return reflect.ValueOf(v).Pointer()
 	case *hashmap:
@@ -461,7 +461,7 @@ func ext۰reflect۰Value۰IsNil(fr *frame, args []value) value {
 	switch x := rV2V(args[0]).(type) {
 	case *value:
 		return x == nil
-	case chan value:
+	case *chanObj:
 		return x == nil
 	case map[value]value:
 		return x == nil
